@@ -4,6 +4,8 @@ import TrustVerif.Model.C02
 import TrustVerif.Model.C03
 import TrustVerif.Drv.Common
 import TrustVerif.Drv.StParse
+import TrustVerif.Model.StExtCheck
+import TrustVerif.Drv.StExtParse
 
 /-
 Driver shared by C01 / C02 / C03.  Protocol of one case:
@@ -24,7 +26,7 @@ statements on the IMPLEMENTATION's behaviour; one line per case:
 A signature (`sig`) names the failed clause; `checks/c0x.py` matches it against known_findings.json.
 -/
 namespace TrustVerif.Drv.C01
-open TrustVerif.StCore TrustVerif.Drv TrustVerif.Drv.St
+open TrustVerif.StCore TrustVerif.StExt TrustVerif.Drv TrustVerif.Drv.St
 
 /-- Recursion budget of the model interpreter.  The generator bounds every loop, so a generated
 program needs a depth of a few hundred at most; the implementation runs without a deadline. -/
@@ -39,6 +41,9 @@ structure Case where
   n : String := ""
   decls : List VarDecl := []
   body : Option Block := none
+  /-- stage S4: FUNCTIONs and the body as an extended block (used when `funcs` is non-empty) -/
+  funcs : List FuncDef := []
+  xbody : Option XBlock := none
   verdict : Option String := none     -- impl answer to `check`
   steps : List Step := []             -- reversed while reading
   pending : List (String × Val) := []
@@ -49,6 +54,21 @@ structure Case where
 
 def Case.program (c : Case) : Option Program :=
   c.body.map fun b => { decls := c.decls, body := b }
+
+def Case.xprogram (c : Case) : Option XProgram :=
+  c.xbody.map fun b => { funcs := c.funcs, decls := c.decls, body := b }
+
+def applySetsX (rs : XRunState) (sets : List (String × Val)) : XRunState :=
+  sets.foldl (fun rs (x, v) => { rs with store := { rs.store with vars := insert x v rs.store.vars } }) rs
+
+/-- Run the stage-S4 model over the case's steps. -/
+def runModelX (p : XProgram) (steps : List Step) : List (CycleOut × Env × Nat) :=
+  let rec go (rs : XRunState) : List Step → List (CycleOut × Env × Nat)
+    | [] => []
+    | s :: rest =>
+      let (rs', o) := xcycle p fuel (applySetsX rs s.sets)
+      (o, rs'.store.vars, rs'.store.frames.length) :: go rs' rest
+  go { store := p.initStore } steps
 
 def readLine (c : Case) (line : String) : Case :=
   match words line with
@@ -61,10 +81,19 @@ def readLine (c : Case) (line : String) : Case :=
     | some t, some i, some tp =>
       { c with decls := c.decls ++ [{ name := name, ty := t, init := i, typedInit := tp }] }
     | _, _, _ => { c with bad := true }
-  | "body" :: toks =>
-    match parseBlock? toks with
-    | some b => { c with body := some b }
+  | "func" :: toks =>
+    match parseFunc? toks with
+    | some f => { c with funcs := c.funcs ++ [f] }
     | none => { c with bad := true }
+  | "body" :: toks =>
+    if c.funcs.isEmpty then
+      match parseBlock? toks with
+      | some b => { c with body := some b }
+      | none => { c with bad := true }
+    else
+      match parseXBlock? toks with
+      | some b => { c with xbody := some b }
+      | none => { c with bad := true }
   | ["check"] => { c with ops := true :: c.ops, lastOp := some true }
   | ["set", name, val] =>
     match parseVal? val with
@@ -101,7 +130,21 @@ def showCycle (o : CycleOut) (e : Env) (frames : Nat) : String :=
 
 /-! ### pass 1 -/
 
+def emitModel (accepted : Bool) (ops : List Bool) (outs : List (CycleOut × Env × Nat)) : List String :=
+  match ops with
+  | [] => []
+  | true :: rest => (if accepted then "m accept" else "m reject") :: emitModel accepted rest outs
+  | false :: rest =>
+    match outs with
+    | (o, e, f) :: more => ("m " ++ s!"{showOut o} frames={f} {showEnv e}") :: emitModel accepted rest more
+    | [] => "bad-op" :: emitModel accepted rest []
+
 def modelPass (c : Case) : List String :=
+  match c.xprogram with
+  | some xp =>
+    if c.bad then c.ops.map fun _ => "bad-op" else
+    emitModel xp.accepted c.ops.reverse (runModelX xp c.steps.reverse)
+  | none =>
   match c.program with
   | none => c.ops.map fun _ => "bad-op"
   | some p =>
@@ -230,7 +273,37 @@ def c01go (prev : Bool) : List ImplCycle → List (CycleOut × Env × Nat) → L
       | [] => (none, [])
     c01Cycle ic prev mo :: c01go (prev || ic.outcome ≠ "ok") rest ms'
 
+/-- Pass 2 for a stage-S4 case: C01 (fault classes, frames) and C03 (tags of the program's
+variables at every cycle boundary) on the implementation's answers; the reference of C02 does not
+cover calls yet (`c02=na`). -/
+def oraclePassX (c : Case) (p : XProgram) : String :=
+  if c.bad then s!"o {c.n} bad-op" else
+  let steps := c.steps.reverse
+  let acc := c.verdict == some "accept"
+  let hole := p.accepted && !p.acceptedFixed
+  let pre := if hole then "case-else-hole:" else ""
+  let head := s!"o {c.n} acc={if acc then 1 else 0} strict=0 spec=0"
+  if c.verdict == some "panic" then s!"{head} c01=compile-panic c02=na c03=ok" else
+  if !acc then s!"{head} c01=ok c02=na c03=ok" else
+  let implO := steps.map fun s => s.impl.bind parseImplCycle
+  if implO.any Option.isNone then s!"o {c.n} bad-op" else
+  let impl := implO.filterMap id
+  let model := runModelX p steps
+  let c01 := firstNotOk (c01go false impl model)
+  let ctx : Ctx := p.decls.map fun d => (d.name, d.ty)
+  let c03s := impl.map fun ic =>
+    if ic.otherTags then "foreign-value" else
+    match firstBadSlot ctx ic.env with
+    | none => "ok"
+    | some (_, cl) => cl.sig
+  let c03 := firstNotOk c03s
+  let dress (s : String) := if s = "ok" ∨ s = "na" then s else pre ++ s
+  s!"{head} c01={dress c01} c02=na c03={dress c03}"
+
 def oraclePass (c : Case) : String :=
+  match c.xprogram with
+  | some xp => oraclePassX c xp
+  | none =>
   match c.program with
   | none => if c.ops.isEmpty && !c.bad then s!"o {c.n} raw" else s!"o {c.n} bad-op"
   | some p =>
